@@ -141,6 +141,18 @@ Theorem C04_discrete_SIR_fuel_suffices : forall g R ord i0 r0o tmin tmax full fu
   exec (discrete_SIR g R None ord (Some i0) r0o None tmin tmax full fuel) ds [] = (Err e, tr) -> e = OutOfDraws.
 Proof. exact dsir_fuel_suffices. Qed.
 
+(* a finite horizon tmax = tmin + n bounds the number of steps: fuel > n is never exhausted,
+   with or without test_recovery, and for basic_discrete_SIS *)
+Theorem C04_discrete_SIR_horizon_bounds_the_steps : forall g R trec ord i0 r0o tmin (n : nat) full fuel ds e tr,
+  rules_safe R -> (n < fuel)%nat ->
+  exec (discrete_SIR g R trec ord (Some i0) r0o None tmin (Some (tmin + inject_Z (Z.of_nat n))) full fuel) ds [] = (Err e, tr) -> e = OutOfDraws.
+Proof. exact dsir_horizon_suffices. Qed.
+
+Theorem C04_basic_discrete_SIS_horizon_bounds_the_steps : forall g R ord i0 tmin (n : nat) full fuel ds e tr,
+  rules_safe R -> (n < fuel)%nat ->
+  exec (basic_discrete_SIS_R g R ord (Some i0) None tmin (Some (tmin + inject_Z (Z.of_nat n))) full fuel) ds [] = (Err e, tr) -> e = OutOfDraws.
+Proof. exact dsis_horizon_suffices. Qed.
+
 Theorem C04_table_rules_safe : forall tt pick, rules_safe (det_rules tt pick).
 Proof. exact det_rules_safe. Qed.
 Theorem C04_default_rule_safe : forall p, rules_safe (simple_rules p).
@@ -223,6 +235,8 @@ Print Assumptions C04_discrete_unbounded_run_ends_without_infection.
 Print Assumptions C04_discrete_SIR_never_crashes.
 Print Assumptions C04_basic_discrete_SIS_never_crashes.
 Print Assumptions C04_discrete_SIR_fuel_suffices.
+Print Assumptions C04_discrete_SIR_horizon_bounds_the_steps.
+Print Assumptions C04_basic_discrete_SIS_horizon_bounds_the_steps.
 Print Assumptions C04_table_rules_safe.
 Print Assumptions C04_default_rule_safe.
 Print Assumptions C04_table_rules_pick_sound.
